@@ -93,6 +93,25 @@ CLAIMED.update({
 })
 
 CLAIMED.update({
+ "C18": dict(category="other",
+    text="Proof of all obligations except one listed known finding. _message_from_exception is proved per kind of exception "
+         "(ApplicationError, user exception with / without kwargs): the ERROR carries the request type and id, the error URI "
+         "(exc.error / first registered pattern of exactly the exception's class / wamp.error.runtime_error), the same "
+         "positional arguments and the same keyword arguments as a mapping (plus 'traceback' exactly when tracebacks are "
+         "on). _exception_from_message: unregistered URI -> generic ApplicationError with URI and positional arguments; "
+         "registered URI -> the class is tried exactly once with the carried arguments and its instance is returned "
+         "whenever construction succeeds; no exception escapes whatever the constructor does (error never lost). Known "
+         "finding (open): keyword arguments named like ApplicationError's own options are dropped. Counterexamples are "
+         "replayed on the real functions.",
+    note="Trusted: z3, pyvc (incl. its model of Python argument binding for f(*seq, **table): a table key naming a bound "
+         "parameter is a TypeError), application values as opaque identities, a registered class as an opaque identity "
+         "whose call raises arbitrarily or records its arguments. Not covered: BaseSession.define / uri.error "
+         "(registration), encrypted errors (C20), subclasses of registered classes.",
+    technique="contract-based deductive verification: AST->VC, symbolic tables with universally quantified ghost key, z3; "
+              "counterexamples replayed on the real code"),
+})
+
+CLAIMED.update({
  "C04": dict(category="proof",
     text="IdGenerator.next stays in 1..2^53 and is sequential; every reply arm of ApplicationSession.onMessage "
          "(PUBLISHED, SUBSCRIBED, UNSUBSCRIBED, REGISTERED, UNREGISTERED, RESULT incl. progressive, ERROR keyed by request "
